@@ -141,9 +141,13 @@ def run(ctx):
     # ---------------------------------------------------------------- R1 / R4 (ownership scans)
     nopen = nwrite = 0
     r1bad = r4bad = False
-    for f in prog.all_functions():
-        for n, cal, effs in S.calls(f):
-            for e in effs:
+    from .common import CallGraph, resolved_effect_sites
+    cgraph = CallGraph(ctx, S)
+    WANTED = {'OPEN', 'WRITE_PATH', 'TRUNCATE_PATH', 'TOUCH', 'COPY', 'MOVE', 'UNLINK', 'RENAME', 'REPLACE', 'LINK', 'H_WRITE'}
+    for f0, n, e in resolved_effect_sites(ctx, S, cgraph, WANTED):
+        # an effect in a private helper belongs to the functions that call it (climb until lock_pack / repack_pack or a public root)
+        for f in [prog.fn(q) for q in sorted(cgraph.owners(f0.qualname, lambda q: q in ('container:Container.lock_pack', 'container:Container.repack_pack')))]:
+            if True:
                 if e[0] == 'OPEN' and 'packs' in areas(K, e[1]) and not is_lock_path(K, e[1]) and any(c in (e[2] or '') for c in 'wax+'):
                     nopen += 1
                     if f.qualname != 'container:Container.lock_pack' or e[2] != 'ab':
@@ -169,8 +173,9 @@ def run(ctx):
         if isinstance(n, ast.With):
             for it in n.items:
                 c = it.context_expr
-                if isinstance(c, ast.Call) and norm(c.func) == 'open':
+                if isinstance(c, ast.Call):
                     hk = K.kind(c, K.top_frame(lk))
+                    hk = next((a for a in alts(hk) if a and a[0] == 'handle'), hk)
                     if hk[0] == 'handle' and is_lock_path(K, hk[1]):
                         lock_open = (n, hk[2])
                     elif hk[0] == 'handle' and 'packs' in areas(K, hk[1]):
@@ -203,6 +208,10 @@ def run(ctx):
                         sites.add(e[1][3])
         lock = prog.fn('container:Container.lock_pack')
         lock_opens = {id(n) for n, cal, effs in S.calls(lock) for e in effs if e[0] == 'OPEN' and e[2] == 'ab'}
+        # ... or by a private helper that only lock_pack calls
+        for hf in prog.all_functions():
+            if hf is not lock and cgraph.owners(hf.qualname, lambda q2: q2 == lock.qualname) == {lock.qualname}:
+                lock_opens |= {id(n) for n, cal, effs in S.calls(hf) for e in effs if e[0] == 'OPEN' and e[2] == 'ab'}
         chk.require(nw >= 1, f'{q}: no write to a pack handle found')
         if sites <= lock_opens:
             chk.ok(R1, q, f'{nw} pack write site(s)', detail='all through the handle opened by lock_pack')
